@@ -290,6 +290,11 @@ def parseCache (s : String) : Option CacheMode :=
     whose threshold is the wall clock, purges them depends on a second boundary. -/
 def dumpVisible (r : Rec) : Bool := !(r.md.deleted > T - 1000 && r.md.deleted < T + 1000)
 
+/-- The harness runs record-state maintenance six times in a row (see dbx.go: one bbolt pass may skip records). -/
+def maintainN : Nat → Cfg → Store → Int → Int → Store
+  | 0, _, s, _, _ => s
+  | n + 1, cfg, s, now, thr => maintainN n cfg (maintain cfg s now thr) now thr
+
 def showDump (s : Store) : String :=
   let l := (sortRecs (s.filter dumpVisible)).map (fun r => s!"{r.key}~{showMeta r.md}")
   if l.isEmpty then "ok 0" else s!"ok {l.length} " ++ " ".intercalate l
@@ -357,9 +362,9 @@ def handle (s : Sys) (line : String) : Sys × String :=
   | ["purge", id, p, c] => (match parseQuery p c with | some q => s.exec id (.purge q) | none => (s, "bad-op"))
   | ["maintain", t] =>
     (match parseTs t with
-     | some t => ({ s with store := maintain s.cfg s.store T t }, "ok")
+     | some t => ({ s with store := maintainN 6 s.cfg s.store T t }, "ok")
      | none => (s, "bad-op"))
-  | ["gmaintain"] => ({ s with store := maintain s.cfg s.store T T }, "ok")
+  | ["gmaintain"] => ({ s with store := maintainN 6 s.cfg s.store T T }, "ok")
   | ["dump"] => (s, showDump s.store)
   | ["iter", n, e, _forced] =>
     -- the iterator hand-over: the consumer drains all n records and then sees the producer's error
